@@ -454,7 +454,11 @@ fn run_phase(scripts: &[Vec<RCall>], sh: Option<Arc<Shared>>, seed: u64, mode: u
                     }
                 }
                 let mut out = Vec::new();
-                for round in 0..3 {
+                // scripts made only of cheap calls (hashing, key derivation, tree reads) are repeated many times: a
+                // race window of a few instructions needs ~10^4..10^5 overlapping calls to be hit
+                let cheap = script.iter().all(|c| !matches!(c, RCall::NewInstance | RCall::Verify { .. } | RCall::VerifyRln { .. } | RCall::VerifyRoots { .. } | RCall::FfiVerifyRln { .. }));
+                let rounds = if cheap { 4000 } else { 3 };
+                for round in 0..rounds {
                     for (k, c) in script.iter().enumerate() {
                         let r = do_call(c, sh.as_deref());
                         if round == 0 {
@@ -624,6 +628,59 @@ pub fn run_baton(trace: &BatonTrace, prop: &str, cold_process: bool) -> BatonOut
             }
         }
     }
+    // ---- uncontrolled stage only: a storm of cheap calls with mixed arities / lengths / seeds from 8 real threads,
+    // each result compared with the value computed beforehand on one thread (a race window of a few instructions
+    // needs ~10^5 overlapping calls to be hit; supplementary, the baton stages are the deciding ones)
+    if trace.mode == FREE_RUNNING {
+        let mut table: Vec<(RCall, RResult)> = Vec::new();
+        for n in 1..=4usize {
+            table.push((RCall::Poseidon { n, seed: n as u64 }, RResult::None));
+        }
+        for k in [0usize, 5, 40] {
+            table.push((RCall::HashToField { bytes: vec![7u8; k] }, RResult::None));
+        }
+        for k in 0..3u8 {
+            table.push((RCall::SeededKeygen { seed: vec![k, 1, 2] }, RResult::None));
+            table.push((RCall::SeededExtKeygen { seed: vec![k, 9] }, RResult::None));
+        }
+        for e in table.iter_mut() {
+            e.1 = do_call(&e.0, None);
+        }
+        let table = Arc::new(table);
+        let bad: Arc<Mutex<Option<String>>> = Arc::new(Mutex::new(None));
+        let calls = Arc::new(std::sync::atomic::AtomicU64::new(0));
+        let mut hs = Vec::new();
+        for t in 0..8usize {
+            let (table, bad, calls) = (table.clone(), bad.clone(), calls.clone());
+            hs.push(std::thread::spawn(move || {
+                let n = table.len();
+                for it in 0..30_000usize {
+                    let (c, want) = &table[(it * (t + 1) + t) % n];
+                    let got = do_call(c, None);
+                    if !same(want, &got) {
+                        *bad.lock().unwrap() = Some(format!("thread {t} iteration {it} {}: concurrent {} sequential {}", c.to_json(), short(&got), short(want)));
+                        break;
+                    }
+                    if it % 1000 == 0 && bad.lock().unwrap().is_some() {
+                        break;
+                    }
+                }
+                calls.fetch_add(30_000, std::sync::atomic::Ordering::Relaxed);
+            }));
+        }
+        for h in hs {
+            let _ = h.join();
+        }
+        counters.add("free_running_storm_calls", calls.load(std::sync::atomic::Ordering::Relaxed));
+        counters.inc("reach.free_running_scenarios");
+        let verdict: Option<String> = { let g = bad.lock().unwrap(); g.clone() };
+        if let Some(d) = verdict {
+            o.violation = viol("differs_from_sequential", d);
+            o.counters = counters;
+            o.trace_with_schedule = out_trace;
+            return o;
+        }
+    }
     // ---- shared instance and messages
     let depth = 20;
     let rln = match guarded(|| RLN::new(depth, Cursor::new("{}".to_string()))) {
@@ -766,6 +823,15 @@ pub fn generate_baton(seed: u64, thorough: bool, keygen_heavy: bool) -> BatonTra
             });
         }
         cold.push(s);
+    }
+    if mode == FREE_RUNNING {
+        // the uncontrolled stage hammers the cheap shared paths: every thread hashes inputs of several arities
+        for (t, sc) in cold.iter_mut().enumerate() {
+            sc.retain(|c| !matches!(c, RCall::NewInstance));
+            sc.push(RCall::Poseidon { n: 1 + (t % 3), seed: 1 });
+            sc.push(RCall::Poseidon { n: 1 + ((t + 1) % 4), seed: 2 });
+            sc.push(RCall::SeededKeygen { seed: vec![t as u8] });
+        }
     }
     let leaves: Vec<(usize, Fr)> = (0..(2 + rng.usize_below(5))).map(|_| (*rng.pick(&[0usize, 1, 5, 300, (1 << 19) - 1, 1 << 19, (1 << 20) - 1, 4097]), fr_from_le(&rng.bytes(32)))).collect();
     let npub = if keygen_heavy { 1 } else if thorough { 2 } else { 1 + rng.usize_below(2) };
@@ -1126,7 +1192,7 @@ pub fn transcript(seed: u64) -> Vec<(String, String)> {
     {
         let known = std::collections::HashSet::new();
         for k in 0..6u64 {
-            let g = crate::e1::GenCfg { prop: "C08".into(), allow_rln: false, allow_pm: true, allow_reopen: false, max_steps: 30, deep: false };
+            let g = crate::e1::GenCfg { big: false, prop: "C08".into(), allow_rln: false, allow_pm: true, allow_reopen: false, max_steps: 30, deep: false };
             let tr = crate::e1::generate(seed.wrapping_mul(31).wrapping_add(k), &g);
             let dir = std::env::temp_dir().join(format!("zk-tr-{}-{}", std::process::id(), k));
             let mut ctx = crate::e1::Ctx::new("", &known, &dir);
